@@ -7,7 +7,7 @@ import numpy as np
 import lightworks as lw
 from lightworks import emulator as emu
 
-PV = {1: 0.3, 2: 1.1}
+PV = {1: 0.3, 2: 1.1, 3: 0.3 + 2e-7}        # 3: a step from 1 that changes every matrix element by less than 1e-8 + 1e-5 |u|
 INPUTS = {1: [1, 0], 2: [1, 1]}
 BRIGHT = {1: 1.0, 2: 0.6}
 BACKENDS = {1: "permanent", 2: "slos"}
@@ -28,7 +28,8 @@ class World:
         for name, n, hm in (("A", 0, 2), ("B", 1, 2), ("C", 0, 0)):
             c = lw.Circuit(3)
             c.bs(0, 1)
-            c.ps(1, self.p)
+            c.ps(1, self.p)             # inside a Mach-Zehnder loop, so that the value is visible in the probabilities
+            c.bs(0, 1)
             c.bs(1, 2, reflectivity=0.4)
             c.loss(0, 0.2)
             c.herald(n, hm)
